@@ -64,6 +64,20 @@ package main
 // `data` key, without `run_id`, and with oddly typed data (0, "done", [], true, null), with and without
 // a step still running; the harness then keeps its end of the input open and the server has to return.
 //
+// Step "islow" has a per-run INITIALIZER that takes a few milliseconds and step data that carries the
+// release: behaviour "waitdata" waits (with a give-up time) for the release its signal handler stores
+// in the run's step data. Sessions put the release signal directly behind the work-start, in the same
+// write, so that the step and its signal reach the step-data setup together. Per-run step data must be
+// created exactly once: the initializer calls are counted against the runs that reached it (reported
+// under prop C11), and a step that gave up although its release signal was delivered is a finding.
+//
+// Behaviour "ctxwatch": the handler waits for its gate or for its context; its context must not be
+// cancelled unless the client cancelled (a plain client-done does not cancel running steps).
+//
+// Behaviours "nan" / "inf" / "ninf": the step returns a declared output ("numbers") whose float
+// field, float list and any-typed value hold NaN / +Inf / -Inf: conforming output that has to be
+// answered with work-done like any other.
+//
 // Oracle findings (prop C07): process crash, RunATPServer not returning after input ended and all
 // handlers were released, a run whose number of terminal messages differs from the number of its
 // accepted work-starts while the output was open, corrupted output framing.
@@ -84,6 +98,7 @@ import (
 	"errors"
 	"fmt"
 	"io"
+	"math"
 	"math/rand"
 	"os"
 	"os/exec"
@@ -178,6 +193,11 @@ type atpsRunner struct {
 	sigGates map[int]chan struct{}
 	// signal handler calls by stream position of the released work-start -> signal key it came under
 	sigDelivered map[int]string
+	// "islow": initializer calls, and the work-starts whose "waitdata" handler gave up
+	slowInits int32
+	gaveUp    map[int]bool
+	// "ctxwatch": work-starts whose context was cancelled while they waited
+	ctxCancelled map[int]bool
 	// "hand" / "takesig": unbuffered hand-over per work-start; allOpen ends every wait at the end of the script
 	handoffs map[int]chan struct{}
 	allOpen  chan struct{}
@@ -303,7 +323,7 @@ func atpsBehClass(beh string) string {
 	return "ok"
 }
 
-func (r *atpsRunner) stepHandler(_ context.Context, _ any, in atpsIn) (string, any) {
+func (r *atpsRunner) stepHandler(ctx context.Context, data any, in atpsIn) (string, any) {
 	src := int(in.Src)
 	if !r.quiet {
 		r.mu.Lock()
@@ -317,6 +337,30 @@ func (r *atpsRunner) stepHandler(_ context.Context, _ any, in atpsIn) (string, a
 			select {
 			case <-r.handoff(src):
 			case <-r.allOpenCh():
+			}
+		case "waitdata":
+			if d, ok := data.(*atpsStepData); ok && d != nil && d.released != nil {
+				select {
+				case <-d.released:
+				case <-time.After(400 * time.Millisecond):
+					r.gateMu.Lock()
+					if r.gaveUp == nil {
+						r.gaveUp = map[int]bool{}
+					}
+					r.gaveUp[src] = true
+					r.gateMu.Unlock()
+				}
+			}
+		case "ctxwatch":
+			select {
+			case <-r.gate(src):
+			case <-ctx.Done():
+				r.gateMu.Lock()
+				if r.ctxCancelled == nil {
+					r.ctxCancelled = map[int]bool{}
+				}
+				r.ctxCancelled[src] = true
+				r.gateMu.Unlock()
 			}
 		default:
 			<-r.gate(src)
@@ -335,6 +379,12 @@ func (r *atpsRunner) stepHandler(_ context.Context, _ any, in atpsIn) (string, a
 		return "success", 42
 	case "panic":
 		panic("handler panic requested by " + in.Name)
+	case "nan":
+		return "numbers", atpsNumOut{X: math.NaN(), L: []float64{1.5, math.NaN()}, A: map[string]any{"v": math.NaN()}}
+	case "inf":
+		return "numbers", atpsNumOut{X: math.Inf(1), L: []float64{math.Inf(1), 0}, A: []any{math.Inf(1)}}
+	case "ninf":
+		return "numbers", atpsNumOut{X: math.Inf(-1), L: []float64{}, A: math.Inf(-1)}
 	}
 	return "success", atpsOut{Message: "Hello, " + in.Name + "!"}
 }
@@ -370,7 +420,27 @@ func (r *atpsRunner) sigHandler(_ context.Context, _ any, in atpsSigIn) {
 	}
 }
 
-type atpsStepData struct{ n int }
+type atpsStepData struct {
+	n        int
+	mu       sync.Mutex
+	released chan struct{} // "islow": closed by the run's signal handler
+}
+
+func (d *atpsStepData) release() {
+	d.mu.Lock()
+	defer d.mu.Unlock()
+	select {
+	case <-d.released:
+	default:
+		close(d.released)
+	}
+}
+
+type atpsNumOut struct {
+	X float64   `json:"x"`
+	L []float64 `json:"l"`
+	A any       `json:"a"`
+}
 
 func (r *atpsRunner) sigHandler2(_ context.Context, _ *atpsStepData, in atpsSigIn) {
 	r.sigArrived("sig", in)
@@ -379,8 +449,23 @@ func (r *atpsRunner) sigHandler2(_ context.Context, _ *atpsStepData, in atpsSigI
 	}
 }
 
-func (r *atpsRunner) stepHandler2(ctx context.Context, _ *atpsStepData, in atpsIn) (string, any) {
-	return r.stepHandler(ctx, nil, in)
+func (r *atpsRunner) stepHandler2(ctx context.Context, d *atpsStepData, in atpsIn) (string, any) {
+	return r.stepHandler(ctx, d, in)
+}
+
+// sigHandlerData: the release goes into the run's step data (and is recorded as delivered).
+func (r *atpsRunner) sigHandlerData(_ context.Context, d *atpsStepData, in atpsSigIn) {
+	if d != nil && d.released != nil {
+		d.release()
+	}
+	if in.Src > 0 {
+		r.gateMu.Lock()
+		if r.sigDelivered == nil {
+			r.sigDelivered = map[int]string{}
+		}
+		r.sigDelivered[int(in.Src)] = "sig"
+		r.gateMu.Unlock()
+	}
 }
 
 func (r *atpsRunner) plugin() *schema.CallableSchema {
@@ -399,6 +484,11 @@ func (r *atpsRunner) plugin() *schema.CallableSchema {
 			"error": schema.NewStepOutputSchema(schema.NewScopeSchema(schema.NewStructMappedObjectSchema[atpsErrOut]("ErrorOutput", map[string]*schema.PropertySchema{
 				"error": atpsProp(schema.NewStringSchema(nil, nil, nil), true),
 			})), nil, true),
+			"numbers": schema.NewStepOutputSchema(schema.NewScopeSchema(schema.NewStructMappedObjectSchema[atpsNumOut]("Numbers", map[string]*schema.PropertySchema{
+				"x": atpsProp(schema.NewFloatSchema(nil, nil, nil), true),
+				"l": atpsProp(schema.NewListSchema(schema.NewFloatSchema(nil, nil, nil), nil, nil), true),
+				"a": atpsProp(schema.NewAnySchema(), false),
+			})), nil, false),
 		}
 	}
 	sigSchema := func() *schema.ScopeSchema {
@@ -455,7 +545,15 @@ func (r *atpsRunner) plugin() *schema.CallableSchema {
 			"p2":           schema.NewSignalSchema("progress", sigSchema(), nil),
 		},
 		nil, nil, r.stepHandler)
-	return schema.NewCallableSchema(hello, withInit, panicInit, withMap, keyed)
+	// "islow": the initializer takes a few milliseconds; the release travels in the step data
+	slowInit := schema.NewCallableStepWithSignals[*atpsStepData, atpsIn]("islow", inSchema(), outputs(),
+		map[string]schema.CallableSignal{"sig": schema.NewCallableSignal[*atpsStepData, atpsSigIn]("sig", sigSchema(), nil, r.sigHandlerData)},
+		nil, nil, func() *atpsStepData {
+			atomic.AddInt32(&r.slowInits, 1)
+			time.Sleep(4 * time.Millisecond)
+			return &atpsStepData{released: make(chan struct{})}
+		}, r.stepHandler2)
+	return schema.NewCallableSchema(hello, withInit, panicInit, withMap, keyed, slowInit)
 }
 
 // ---------------------------------------------------------------------------------------------
@@ -959,8 +1057,57 @@ func atpsRunSession(sess *atpsSession, to atpsTimeouts) (out atpsOutcome) {
 	if out.End == "hang" {
 		out.Findings = append(out.Findings, fmt.Sprintf("RunATPServer did not return within %v after input ended and all handlers were released", to.hang))
 	}
+	// per-run step data is created exactly once; a delivered release is seen by the step; a step's
+	// context is cancelled only when the client cancelled
+	{
+		slowRuns := map[string]bool{}
+		for i, it := range items {
+			if i > 0 && !it.Bad && it.accepted() && it.WsStep == "islow" && r.entered[i] {
+				slowRuns[it.Decoded.RunID] = true
+			}
+		}
+		inits := int(atomic.LoadInt32(&r.slowInits))
+		if sess.Stream == "directed" && len(slowRuns) > 0 && inits != len(slowRuns) {
+			out.Findings = append(out.Findings, fmt.Sprintf(
+				"[C11] the per-run initializer of step \"islow\" ran %d times for %d runs (a run's step and its signal must share one step data record, created once)", inits, len(slowRuns)))
+		}
+		r.gateMu.Lock()
+		var gave []int
+		for src := range r.gaveUp {
+			gave = append(gave, src)
+		}
+		sort.Ints(gave)
+		for _, src := range gave {
+			if _, delivered := r.sigDelivered[src]; delivered && src < len(items) {
+				out.Findings = append(out.Findings, fmt.Sprintf(
+					"the step of run %q (stream position %d) gave up waiting for its release although the release signal was delivered to the run's signal handler: step and signal work on different step data records", items[src].Decoded.RunID, src))
+			}
+		}
+		var cc []int
+		for src := range r.ctxCancelled {
+			cc = append(cc, src)
+		}
+		sort.Ints(cc)
+		r.gateMu.Unlock()
+		if !cancelled {
+			for _, src := range cc {
+				run := ""
+				if src < len(items) {
+					run = items[src].Decoded.RunID
+				}
+				out.Findings = append(out.Findings, fmt.Sprintf(
+					"the context of the running step of run %q (stream position %d) was cancelled although the client did not cancel (the input ending, or a client-done, does not cancel running steps)", run, src))
+			}
+		}
+	}
 	// a valid release signal is delivered to its handler
 	if !outputBroken && !cancelled && !serverFatalSeen && announced != nil {
+		undelivered := 0
+		defer func() {
+			if undelivered > 3 {
+				out.Findings = append(out.Findings, fmt.Sprintf("... and %d more valid signals of this session were not delivered", undelivered-3))
+			}
+		}()
 		reach3 := true
 		for i, it := range items {
 			if i == 0 {
@@ -1004,6 +1151,10 @@ func atpsRunSession(sess *atpsSession, to atpsTimeouts) (out atpsOutcome) {
 			key, delivered := r.sigDelivered[int(it.SgSrc)]
 			r.gateMu.Unlock()
 			if !delivered {
+				undelivered++
+				if undelivered > 3 {
+					continue
+				}
 				out.Findings = append(out.Findings, fmt.Sprintf(
 					"the signal %q at stream position %d for run %q (step %q announces it in the hello message, its data is valid, the run was started at position %d) was not delivered to its handler",
 					it.SgID, i, it.Decoded.RunID, ws.WsStep, it.SgSrc))
@@ -1323,7 +1474,7 @@ func atpsClientDone() map[string]any {
 	return map[string]any{"id": uint32(4), "run_id": "", "data": map[string]any{}}
 }
 
-var atpsBehs = []string{"ok", "ok", "errout", "undeclared", "invalid", "panic"}
+var atpsBehs = []string{"ok", "ok", "errout", "undeclared", "invalid", "panic", "nan", "inf", "ninf", "ctxwatch"}
 
 // one grammar message at stream position idx; returns bytes, whether it starts a gated handler,
 // and whether it ends the stream (malformed)
@@ -1619,6 +1770,26 @@ func atpsDirected(nextID func() int) []*atpsSession {
 		out = append(out, mk(fmt.Sprintf("unknown step ID #%d, %d bytes, multi-byte", i, len(id)),
 			send(atpsWS("r1", id, "a", "ok", 1)), atpsAction{Op: "settle"}, send(atpsWS("r2", "hello", "b", "ok", 2)), rel(2),
 			send(atpsSig("r2", id, "ok")), send(atpsSig("r1", id, "ok")), atpsAction{Op: "settle"}, send(atpsClientDone())))
+	}
+	// the release signal directly behind its work-start, in the same write; the initializer is slow
+	{
+		one := func(run string, src int) []byte {
+			return append(atpsEnc(atpsWS(run, "islow", "a", "waitdata", src)), atpsEnc(atpsRelease(run, src))...)
+		}
+		out = append(out,
+			mk("slow initializer: work-start and its release signal in one write", atpsAction{Op: "send", Bytes: one("r1", 1)}, atpsAction{Op: "settle"}, atpsAction{Op: "settle"}, send(atpsClientDone())),
+			mk("slow initializer: three runs, each with its release signal in the same write", atpsAction{Op: "send", Bytes: one("r1", 1)}, atpsAction{Op: "send", Bytes: one("r2", 3)},
+				atpsAction{Op: "send", Bytes: append(one("r3", 5), one("r4", 7)...)}, atpsAction{Op: "settle"}, atpsAction{Op: "settle"}, send(atpsClientDone())),
+		)
+	}
+	// a run in progress across a plain client-done: it still fails on the wire, its context stays alive
+	out = append(out,
+		mk("client-done while a step watches its context", send(atpsWS("r1", "hello", "a", "ctxwatch", 1)), atpsAction{Op: "settle"}, send(atpsClientDone()), atpsAction{Op: "settle"}, atpsAction{Op: "settle"}, rel(1)),
+		mk("end of input while a step watches its context", send(atpsWS("r1", "init", "a", "ctxwatch", 1)), atpsAction{Op: "settle"}, atpsAction{Op: "closeInput"}, atpsAction{Op: "settle"}, atpsAction{Op: "settle"}, rel(1)),
+	)
+	// conforming outputs with NaN and infinities
+	for _, beh := range []string{"nan", "inf", "ninf"} {
+		out = append(out, mk("output with "+beh, send(atpsWS("r1", "hello", "a", beh, 1)), rel(1), send(atpsWS("r2", "init", "b", "ok", 2)), rel(2), atpsAction{Op: "settle"}, send(atpsClientDone())))
 	}
 	// signal handlers registered under keys that differ from their signal IDs (also two with the same ID)
 	for _, key := range []string{"stop", "cancel-step", "a1", "a2"} {
@@ -2129,7 +2300,11 @@ func atpsCmd(a Args) {
 		}
 		for _, what := range o.Findings {
 			script, _ := json.Marshal(x)
-			s.finding(Finding{Prop: "C07", What: what, Cases: []int{id}, Detail: []string{"session " + fmt.Sprint(x.ID), x.Stream + ": " + x.Note, string(script)}})
+			prop := "C07"
+			if strings.HasPrefix(what, "[C11] ") {
+				prop, what = "C11", strings.TrimPrefix(what, "[C11] ")
+			}
+			s.finding(Finding{Prop: prop, What: what, Cases: []int{id}, Detail: []string{"session " + fmt.Sprint(x.ID), x.Stream + ": " + x.Note, string(script)}})
 		}
 	}
 	s.stats["sessions"] = len(sessions)
